@@ -413,3 +413,5 @@ META = {
                     "str.strip() contract: s = l.core.r with l, r whitespace and core not starting/ending with whitespace",
                     "compile_imports / _generate_code results are opaque strings for the preamble kernel"],
 }
+if isinstance(META.get("bounds"), dict) and "quick" in META["bounds"]:
+    META["bounds"]["quick"] += '; preamble with runs of blank lines and trailing spaces'
